@@ -352,3 +352,122 @@ def _insert_torn_reads(b, fmt):
 
 for _fmt in HAS_READER:
     SCENARIOS["roundtrip." + _fmt] = (lambda seed, tier, _f=_fmt: plan_roundtrip(_f, seed, tier))
+
+
+# =========================================================================== C19 / C17 sessions
+
+OPS = ["FMAtomicSets", "FMAverageBranchingFactor", "FMCoreFeatures", "FMCountLeafs",
+       "FMEstimatedConfigurationsNumber", "FMFeatureAncestors", "FMLeafFeatures",
+       "FMMaxDepthTree", "FMMetrics", "FMVariationPoints"]
+
+
+def _rand_domain(rng):
+    k = rng.random()
+    if k < 0.06:
+        return None                              # set_domain never called
+    if k < 0.12:
+        return {"ranges": [], "elems": []}       # empty domain
+    ranges, elems = [], []
+    if k < 0.45 or k > 0.8:
+        for _ in range(rng.choice([1, 1, 2, 3])):
+            j = rng.random()
+            if j < 0.5:
+                lo = rng.choice([0, 1, -5, 10, 100, -100])
+                hi = lo + rng.choice([0, 0, 1, 3, 100])
+                ranges.append([lo, hi])
+            else:
+                lo = rng.choice([0.0, 0.5, 1.25, -2.5, 10.125])
+                hi = lo + rng.choice([0.0, 0.5, 1.0, 2.75, 100.001])
+                if rng.random() < 0.3:
+                    ilo = int(lo) if int(lo) <= lo else int(lo) - 1
+                    ranges.append([ilo, hi])   # int lower, float upper bound
+                else:
+                    ranges.append([lo, hi])
+    if k >= 0.45:
+        pool = ["a", "b", "x y", 1, 2, 3.5, True, False, None, "ñ", 0, -1, [1, 2], "1"]
+        elems = [rng.choice(pool) for _ in range(rng.randint(1, 4))]
+        if rng.random() < 0.5:
+            elems = [e for e in elems if e is not None] or ["a"]
+    return {"ranges": ranges, "elems": elems}
+
+
+def plan_ops(seed, tier, metrics_bias=False):
+    b = Builder(seed, "metrics-session" if metrics_bias else "ops-session", tier)
+    rng = b.rng
+    nseg = rng.choice([1, 1, 1, 2])
+    for s in range(nseg):
+        b.segment(env=_seg_env(rng), disk_cfg={}, cwd="d0")
+        pool = gen.name_pool(rng, "whole", rng.randint(5, 9))
+        live = []
+        cfgs = []
+        for _ in range(rng.randint(2, 4)):
+            cfg = gen.default_cfg(rng, "whole", tier)
+            cfg["p_nonlogical"] = rng.choice([0.0, 0.0, 0.0, 0.3])
+            if rng.random() < 0.15:
+                cfg["size"] = "1"
+            cfgs.append(cfg)
+            h = b.handle()
+            ref = gen.gen_model(rng, "whole", pool, cfg)
+            b.op(op="NEW", m=h, ref=ref, style=rng.choice(["td", "bu"]), frag="whole")
+            live.append([h, ref, cfg, True])
+        nsteps = rng.randint(10, 40 if tier == "quick" else 120)
+        for _step in range(nsteps):
+            k = rng.random()
+            idx = rng.randrange(len(live))
+            h, ref, cfg, _editable = live[idx]
+            if k < (0.35 if metrics_bias else 0.6):
+                name = rng.choice(OPS if not metrics_bias else OPS + ["FMMetrics"] * 3)
+                op = {"op": "EXEC", "name": name, "m": h,
+                      "obj": rng.choice(["fresh", "reuse", "reuse"])}
+                if name == "FMFeatureAncestors":
+                    op["feature"] = rng.choice(rm.names(ref))
+                if name == "FMMetrics" and rng.random() < 0.5:
+                    from . import metrics_ref
+                    methods = metrics_ref.METHODS
+                    j = rng.random()
+                    if j < 0.1:
+                        op["filter"] = []
+                    elif j < 0.2:
+                        op["filter"] = list(methods)
+                    else:
+                        op["filter"] = rng.sample(methods, rng.randint(1, len(methods) - 1))
+                b.op(**op)
+            elif k < (0.75 if metrics_bias else 0.68):
+                op = {"op": "EXEC", "name": "FMMetrics", "m": h,
+                      "obj": rng.choice(["fresh", "reuse", "reuse"])}
+                if rng.random() < 0.4:
+                    from . import metrics_ref
+                    op["filter"] = rng.sample(metrics_ref.METHODS, rng.randint(1, 12))
+                b.op(**op)
+            elif k < 0.8:
+                attr = rng.choice(["cost", "x", "size", "Weight"])
+                b.op(op="RANDATTR", m=h, attr=attr, domain=_rand_domain(rng),
+                     only_leaf=rng.random() < 0.4,
+                     mode=rng.choice(["seeded", "seeded", "low", "high", "ends", "alternate"]),
+                     seed=rng.randint(0, 2 ** 31), obj=rng.choice(["fresh", "reuse"]))
+                # the reference is updated by the worker from what it observes; planned edits
+                # on this model stop here (its reference is no longer known to the plan)
+                live[idx][3] = False
+            elif k < 0.9 and live[idx][3]:
+                edit, new = gen.gen_edit(rng, ref, "whole", pool, cfg)
+                if edit is not None:
+                    b.op(op="EDIT", m=h, edit=edit, ref_after=new)
+                    live[idx][1] = new
+            elif k < 0.95:
+                fmt = rng.choice(ALL_WRITERS)
+                b.op(op="WRITE", fmt=fmt, m=h, path=None, writer="fresh")
+            else:
+                cfg2 = rng.choice(cfgs)
+                h2 = b.handle()
+                ref2 = gen.gen_model(rng, "whole", pool, cfg2)
+                b.op(op="NEW", m=h2, ref=ref2, style="td", frag="whole")
+                live.append([h2, ref2, cfg2, True])
+    b.plan["replicas"] = [{"env": {}, "disk_cfg": {}}]
+    if rng.random() < (0.3 if tier == "quick" else 0.6):
+        b.plan["replicas"].append({"env_by_segment": [_seg_env(rng) for _ in range(2)],
+                                   "disk_cfg": {}})
+    return b.plan
+
+
+SCENARIOS["ops-session"] = lambda seed, tier: plan_ops(seed, tier, False)
+SCENARIOS["metrics-session"] = lambda seed, tier: plan_ops(seed, tier, True)
